@@ -69,6 +69,9 @@ pub struct SutConfig {
     pub cardano_database: bool,
     pub cardano_transactions: bool,
     pub cardano_stake_distribution: bool,
+    /// the last fixture party holds no stake (it registers like the others; it can never win a lottery)
+    #[serde(default)]
+    pub zero_stake_party: bool,
 }
 
 impl SutConfig {
